@@ -42,7 +42,11 @@ pub fn run(case: &Value, ctx: &Ctx) -> Outcome {
             }
             groups.push(vec!["-m".into(), named.iter().map(|a| a.to_string()).collect::<Vec<_>>().join(",")]);
         } else {
-            let keep: Vec<String> = (0..shape.len()).filter(|a| !marg.contains(a)).map(|a| a.to_string()).collect();
+            let mut keep: Vec<String> = (0..shape.len()).filter(|a| !marg.contains(a)).map(|a| a.to_string()).collect();
+            // kept axes may be named in any order as well; the result keeps the order of the spectrum
+            if id % 4 == 1 {
+                keep.reverse();
+            }
             groups.push(vec!["--marginalize-keep".into(), keep.join(",")]);
         }
     }
